@@ -197,6 +197,7 @@ let answer (s : state) (toks : Stdlib.String.t list) : Stdlib.String.t =
          | _ -> failwith ("bad item " ^ it))
       else QId (id_of_tok it) in
     shrefs (hrefs_of_item s q)
+  | [ "hrefsin"; n; l ] -> shrefs (hrefs_of_instances_in s (href_of_tok l) (id_of_tok n))
   | [ "valid"; h ] -> sbool (is_valid s (href_of_tok h))
   | [ "unique"; h ] ->
     (match is_unique s (depth_fuel s) (href_of_tok h) with Some b -> sbool b | None -> "FUEL")
@@ -238,6 +239,7 @@ let parse_hq (toks : Stdlib.String.t list) : hq =
   | [ "enum"; k; n; r ] -> HEnum (hkind_of_tok k, id_of_tok n, bool_of_tok r)
   | [ "below"; k; r; h ] -> HBelow (hkind_of_tok k, bool_of_tok r, href_of_tok h)
   | [ "hrefs"; it ] -> HHrefs (item_of_tok it)
+  | [ "hrefsin"; n; l ] -> HHrefsIn (id_of_tok n, href_of_tok l)
   | [ "valid"; h ] -> HValid (href_of_tok h)
   | [ "unique"; h ] -> HUnique (href_of_tok h)
   | [ "name"; h ] -> HName (href_of_tok h)
